@@ -4,6 +4,7 @@ import (
 	"fmt"
 	"io/fs"
 	"os"
+	"path/filepath"
 
 	"github.com/avfs/avfs"
 )
@@ -54,6 +55,12 @@ func family(err error) string {
 		return famCustom
 	default:
 		if e == fs.ErrClosed || e == fs.ErrInvalid || e == fs.ErrExist || e == fs.ErrNotExist || e == fs.ErrPermission {
+			return "io/fs sentinel"
+		}
+
+		// path/filepath's sentinel for a malformed pattern (Glob, Match): the one
+		// value package path/filepath itself returns on every OS
+		if e == filepath.ErrBadPattern {
 			return "io/fs sentinel"
 		}
 
